@@ -169,6 +169,37 @@ func Verif_C18_three_messages() {
 	}
 }
 
+// Verif_C18_four_messages (thorough tier): four messages about one service with pairwise different
+// timestamps, delivered as any permutation given by three adjacent swaps of the in-order sequence chosen
+// freely (every one of the 24 orders is reachable): the table ends as if only the latest had been delivered.
+func Verif_C18_four_messages() {
+	if verifapi.Tier() == 0 {
+		verifapi.Cover("delivered")
+		return
+	}
+	ms := []*verifAdMsg{verifAnyAd("X", "s"), verifAnyAd("X", "s"), verifAnyAd("X", "s"), verifAnyAd("X", "s")}
+	verifapi.Assume(verifapi.All(ms[0].t > 0, ms[0].t < ms[1].t, ms[1].t < ms[2].t, ms[2].t < ms[3].t))
+	order := []int{0, 1, 2, 3}
+	// Fisher-Yates with explored choices: every permutation
+	for i := 3; i > 0; i-- {
+		j := verifapi.Choose(i + 1)
+		order[i], order[j] = order[j], order[i]
+	}
+	n := verifNetceptor("A")
+	n.verifConn("B", 1)
+	for _, i := range order {
+		_ = n.s.handleServiceAdvertisement(ms[i].wire(), "B")
+	}
+	verifapi.Quiesce()
+	l, t, c := verifListed(n.s, "X", "s")
+	verifapi.Cover("delivered")
+	if ms[3].cancel {
+		verifapi.Assert("latest-is-withdrawal-so-unlisted", !l)
+	} else {
+		verifapi.Assert("latest-advertisement-wins", verifapi.All(l, t == ms[3].t, c == ms[3].connType))
+	}
+}
+
 // Verif_C18_local_lifecycle: a local advertised listener is opened, advertised and closed through the
 // real ListenPacketAndAdvertise / Close; while open it is listed with its tags, once closed it is not,
 // a withdrawal is flooded to the neighbours, and the periodic advertisement no longer mentions it.
